@@ -396,6 +396,39 @@ func (a *A) ruleStrategyOutcome(fn *ssa.Function, checkNoDropWithoutTimeout bool
 		sumMemo[f] = out
 		return out
 	}
+	// a helper that is not handed the row cannot enqueue or count THIS row: what it sends or counts
+	// concerns other rows (expandDataChannel moves the rows of the old buffer and accounts for those
+	// it has to abandon). Its S / D events are not outcomes of the row being emitted.
+	summariseFor := func(c *ssa.Call) []CallSummary {
+		out := summarise(c)
+		if out == nil {
+			return nil
+		}
+		passesRow := false
+		for _, arg := range c.Call.Args {
+			for _, l := range phiLeaves(arg) {
+				if p, ok := l.(*ssa.Parameter); ok {
+					if _, isMap := p.Type().Underlying().(*types.Map); isMap {
+						passesRow = true
+					}
+				}
+			}
+		}
+		if passesRow {
+			return out
+		}
+		var stripped []CallSummary
+		seen := map[string]bool{}
+		for _, cs := range out {
+			t := strings.NewReplacer("S", "", "D", "").Replace(cs.Tag)
+			k := t + fmt.Sprint(cs.Rets)
+			if !seen[k] {
+				seen[k] = true
+				stripped = append(stripped, CallSummary{Tag: t, Rets: cs.Rets})
+			}
+		}
+		return stripped
+	}
 	// edge events: computed when entering a block through the true/false edge of an If
 	edgeEvent := func(iff *ssa.If, taken bool) string {
 		v := iff.Cond
@@ -464,7 +497,7 @@ func (a *A) ruleStrategyOutcome(fn *ssa.Function, checkNoDropWithoutTimeout bool
 		w := NewWalker(env, nil)
 		w.RetIdx = -1
 		w.AllRets = true
-		w.CallFork = summarise
+		w.CallFork = summariseFor
 		w.Visits = 2
 		w.Target = func(in ssa.Instruction, w *Walker) bool {
 			if in == in.Block().Instrs[0] {
